@@ -339,30 +339,31 @@ Definition diff_is_zero (d : N * (bool * N) * (bool * N) * (bool * N)) : bool :=
 (* ------------------------------------------------------------------ report --task *)
 (* report_task notes the time of every ENTRY/EXIT record (timestamp_last), skips ENTRY and LOST records
    before the filter check, counts every EXIT, then add_remaining_task_fstack (last_time = timestamp_last;
-   slots with addr 0 skipped; legacy: timestamp_last was only set at EXIT records);
+   legacy: timestamp_last was only set at EXIT records, and open frames with addr 0 - inherited at fork() and
+   never returning - were skipped);
    adjust_task_runtime: Total = Self = sum of the self times, "Num funcs" = number of rows.
    Modelled for LOST-free tasks only. *)
-Fixpoint remaining_task_from (last : N) (extra : option N) (stk : list slot) : list row :=
+Fixpoint remaining_task_from (leg : bool) (last : N) (extra : option N) (stk : list slot) : list row :=
   match stk with
   | [] => []
   | top :: rest =>
       let child := bumpc extra (s_child top) in
-      if (s_addr top =? 0) || (last <? s_total top) then remaining_task_from last None rest
+      if (leg && (s_addr top =? 0)) || (last <? s_total top) then remaining_task_from leg last None rest
       else
         let tot := sub64 last (s_total top) in
         let tot' := if tot <? child then child else tot in
-        mkrow (s_addr top) tot' (sub64 tot' child) false :: remaining_task_from last (Some tot') rest
+        mkrow (s_addr top) tot' (sub64 tot' child) false :: remaining_task_from leg last (Some tot') rest
   end.
-Definition remaining_task (last : N) (stk : list slot) : list row := remaining_task_from last None stk.
+Definition remaining_task (leg : bool) (last : N) (stk : list slot) : list row := remaining_task_from leg last None stk.
 Definition task_line (max_stack : N) (rs : list rec) : N * N :=      (* (total = self, num funcs) *)
   let '(st, out) := run (init_state max_stack) [] rs in
-  let rows := out ++ remaining_task (t_lastx st) (t_live st) in
+  let rows := out ++ remaining_task false (t_lastx st) (t_live st) in
   (fold_left (fun s w => add64 s (w_self w)) rows 0, N.of_nat (length rows)).
 Definition last_exit_time (rs : list rec) : N :=
   fold_left (fun t r => if is_exit r then r_time r else t) rs 0.
 Definition task_line_legacy (max_stack : N) (rs : list rec) : N * N :=
   let '(st, out) := run (init_state max_stack) [] rs in
-  let rows := out ++ remaining_task (last_exit_time rs) (t_live st) in
+  let rows := out ++ remaining_task true (last_exit_time rs) (t_live st) in
   (fold_left (fun s w => add64 s (w_self w)) rows 0, N.of_nat (length rows)).
 
 (* ------------------------------------------------------------------ __print_time_unit *)
